@@ -595,9 +595,43 @@ pub fn rand_pwb<R: Rng>(rng: &mut R, macs: &[[u8; 6]], nch: usize, req: u16) -> 
     }
 }
 
+/// `padwing::suppression_baseline` (firmware baseline of a PWB waveform): lengths around 68, extremes, negative sums
+fn gen_pwb_baseline(run: &mut Runner, rng: &mut impl Rng, n: u64) {
+    for k in 0..n {
+        if !run.wants() {
+            run.n += 1;
+            continue;
+        }
+        let len = match k % 6 {
+            0 => rng.gen_range(0..68),
+            1 => 67,
+            2 => 68,
+            3 => 69,
+            _ => rng.gen_range(68..600),
+        };
+        let style = rng.gen_range(0..5);
+        let wave: Vec<i16> = (0..len)
+            .map(|i| match style {
+                0 => rng.gen(),
+                1 => i16::MIN,
+                2 => i16::MAX,
+                3 => -1 + (i % 2) as i16 - (i % 3 == 0) as i16,
+                _ => rng.gen_range(-2048..=2047),
+            })
+            .collect();
+        let base = obj(vec![("fam", json!("pwbbase")), ("kind", json!("baseline")), ("wave", json!(wave))]);
+        run.case(base, move || match alpha_g_detector::padwing::suppression_baseline(9999, &wave) {
+            Ok(Some(v)) => obj(vec![("verdict", json!("ok")), ("value", json!(v))]),
+            Ok(None) => obj(vec![("verdict", json!("ok")), ("value", json!(-99999))]),
+            Err(_) => obj(vec![("verdict", json!("err"))]),
+        });
+    }
+}
+
 pub fn gen_pwb(run: &mut Runner, seed: u64, n: u64, thorough: bool) {
     let mut rng = rng_from(seed, 5);
     let macs = pwb_macs();
+    gen_pwb_baseline(run, &mut rng, if thorough { 5000 } else { 300 });
     for k in 0..2u16 {
         let base = rand_pwb(&mut rng, &macs, 2, 2 + k).pack();
         emit(run, "pwb", "sweepbase".into(), base.clone());
